@@ -288,12 +288,15 @@ class TableParser:
 
         while i < len(children):
             token = children[i]
-            if token.tagname not in ("ref",) and (
-                token.text is None or token.text.startswith("\n")
+            # the caption ends at the line end or at a nested table; tag extensions
+            # (<ref>, <math>, <source>, ...) are part of it
+            if token.type not in (T.t_complex_tag, T.t_complex_compat) and (
+                token.text is None
+                or (token.type != T.t_text and token.text.startswith("\n"))
             ):
                 self.parse_complex_caption(children, start, i, modifier)
                 return
-            elif token.text == "|" and modifier is None:
+            elif token.type == T.t_special and token.text == "|" and modifier is None:
                 modifier = i
             elif token.type == T.t_2box_open and modifier is None:
                 modifier = 0
